@@ -242,4 +242,34 @@ theorem runIO_fault (cd : Codec) (log : List Emitted) (m : Meta.Meta) (sch : Lis
 
 end
 
+/-! ### A concrete instance: three entries, one index level below the root -/
+
+def wxCfg : WCfg := { blockSize := 0, minBlock := 16, interval := 2, levels := 1 }
+def wxEs : List Entry := [([1], [10]), ([2], [20, 21]), ([3, 0], [30])]
+
+theorem wxHyps : WriterHyps Codec.none wxCfg wxEs :=
+  ⟨by decide, fun _ => rfl, by unfold StrictAsc wxEs; decide, by simp [wxEs]⟩
+
+def wxFile : Bytes := match W.run Codec.none wxCfg wxEs with | .ok (f, _) => f | .error _ => []
+def wxLog : List Emitted := match W.run Codec.none wxCfg wxEs with | .ok (_, l) => l | .error _ => []
+def wxMeta : Meta.Meta := match Meta.parse wxFile with | .ok m => m | .error _ => default
+
+theorem wxRun : W.run Codec.none wxCfg wxEs = .ok (wxFile, wxLog) := by
+  obtain ⟨file, log, h⟩ := T_writer_ok wxHyps
+  simp only [wxFile, wxLog, h]
+
+/-- file length, block offsets, parsed trailer (root offset, count, levels) — by evaluation -/
+theorem wxShape : wxFile.length = 190 ∧ wxLog.map (·.offset) = [0, 24, 49, 74, 136] ∧
+    wxMeta = ⟨2, 136, 0, 3, 1⟩ := by
+  set_option maxRecDepth 100000 in decide
+
+theorem wxParse : Meta.parse wxFile = .ok wxMeta := by
+  have h := wxShape.2.2
+  unfold wxMeta at h ⊢
+  cases hp : Meta.parse wxFile with
+  | ok m => rfl
+  | error e => rw [hp] at h; cases h
+
+theorem wxFile_lt : wxFile.length < 2 ^ 64 := by rw [wxShape.1]; decide
+
 end Grenad.Wave3
